@@ -92,6 +92,20 @@ fn gen_code(rng: &mut Rng, c: usize, max_n: u64, allow_bad: bool) -> Code {
     Code::Adf(AdfSpec::gen(rng, n, depth, &marker(c)))
 }
 
+/// A code from a tiny pool shared by all clients (no client marker in it): two users then hold
+/// byte-identical code under the same problem name, so a write keyed by (name, code) instead of
+/// (name, owner) lands on the wrong user's document.
+fn common_code(rng: &mut Rng) -> Code {
+    use refsem::F;
+    let names = vec!["cm0".to_string(), "cm1".to_string()];
+    let acs = match rng.below(3) {
+        0 => vec![F::Not(Box::new(F::Atom(1))), F::Not(Box::new(F::Atom(0)))],
+        1 => vec![F::Top, F::Atom(0)],
+        _ => vec![F::Atom(0), F::Or(Box::new(F::Atom(0)), Box::new(F::Atom(1)))],
+    };
+    Code::Adf(AdfSpec { names, acs, ac_order: vec![0, 1] })
+}
+
 impl Service {
     fn gen_c17(&self, rng: &mut Rng, thorough: bool) -> SrvCase {
         let contended = self.name == "contended";
@@ -142,7 +156,7 @@ impl Service {
                     8 => Rq::DeleteAccount,
                     9..=12 => Rq::Add {
                         pname: if rng.chance(1, 6) { String::new() } else { pnames[rng.below(2) as usize].into() },
-                        code: gen_code(rng, c, 3, true),
+                        code: if rng.chance(1, 4) { common_code(rng) } else { gen_code(rng, c, 3, true) },
                         parsing: if rng.chance(1, 2) { "Naive".into() } else { "Hybrid".into() },
                     },
                     13 | 14 => Rq::Solve { pname: pnames[rng.below(2) as usize].into(), strategy: STRATEGIES[rng.below(6) as usize].into() },
@@ -295,7 +309,7 @@ impl<'a> Run<'a> {
         if self.relaxed(&[&acct]) {
             return;
         }
-        let v = if (v.oracle.starts_with("O3") || v.oracle.starts_with("O1")) && self.tainted_names.contains(&acct) {
+        let v = if (v.oracle.starts_with("O3") || v.oracle.starts_with("O1") || v.oracle.starts_with("O5")) && self.tainted_names.contains(&acct) {
             let k = format!("{}/user.rs:update_user/name-reuse-inside-rename-window", &v.oracle[..2]);
             v.with_key(k)
         } else {
@@ -417,7 +431,9 @@ impl<'a> Run<'a> {
                     }
                 }
             }
-            if ev.coll == crate::config::ADF_COLL && ev.op == "update_many" {
+            // the window closes when the second call of the rename has been executed; a failed
+            // second call leaves the old name's problems behind for good (window stays open)
+            if ev.coll == crate::config::ADF_COLL && ev.op == "update_many" && ev.outcome != "fault-before" {
                 if let Some(c) = actor_client {
                     self.windows.retain(|(wc, _, _)| *wc != c);
                 }
@@ -562,8 +578,8 @@ impl<'a> Run<'a> {
                         }
                     }
                     self.cl[c].acct = Some(name.clone());
+                    self.windows.retain(|(wc, _, _)| *wc != c);
                 }
-                self.windows.retain(|(wc, _, _)| *wc != c);
             }
             Rq::DeleteAccount => {
                 if ok {
@@ -639,6 +655,9 @@ impl<'a> Run<'a> {
                                 _ => {}
                             }
                             let tasks = self.w.tasks.clone();
+                            if let Some(v) = foreign_running_task(c, pname, &j, &tasks) {
+                                self.viol_client(c, v);
+                            }
                             let exact = self.cl[c].exact && !self.case.faults;
                             if let Some(v) = self.o16.on_get(c, pname, &j, &tasks, self.svc_cfg.property == "C16", exact) {
                                 self.viol(v);
@@ -651,6 +670,17 @@ impl<'a> Run<'a> {
                 }
             }
             Rq::List => {
+                if ok && had_cookie {
+                    if let Some(j) = resp.json() {
+                        let tasks = self.w.tasks.clone();
+                        for p in j.as_array().cloned().unwrap_or_default() {
+                            let pn = p["name"].as_str().unwrap_or("").to_string();
+                            if let Some(v) = foreign_running_task(c, &pn, &p, &tasks) {
+                                self.viol_client(c, v);
+                            }
+                        }
+                    }
+                }
                 if ok && had_cookie && strict {
                     if let Some(j) = resp.json() {
                         let acct = self.cl[c].acct.clone().unwrap_or_default();
@@ -706,6 +736,25 @@ impl<'a> Run<'a> {
             }
         }
     }
+}
+
+/// Non-interference on `running_tasks`: every task a client sees listed for one of its
+/// problems must be a task one of its own requests started (lenient about which of the
+/// client's accounts) that has not ended — never another client's task.
+fn foreign_running_task(c: usize, pname: &str, j: &serde_json::Value, tasks: &BTreeMap<u64, crate::world::TaskMeta>) -> Option<Violation> {
+    for r in j["running_tasks"].as_array()? {
+        let name = match (r["type"].as_str(), r["content"].as_str()) {
+            (Some("Parse"), _) => "Parse".to_string(),
+            (Some("Solve"), Some(s)) => format!("Solve({s})"),
+            _ => format!("{r}"),
+        };
+        let own = tasks.values().any(|t| t.client == c && t.adf_name == pname && t.task == name && !t.ended);
+        let foreign = tasks.values().any(|t| t.client != c && t.adf_name == pname && t.task == name && !t.ended);
+        if !own && foreign {
+            return Some(Violation::new("O5-non-interference", "foreign-running-task", format!("client {c} sees task {name} listed as running for its problem {pname}, but only another client has such a task in flight")));
+        }
+    }
+    None
 }
 
 fn t_id(_t: &crate::world::TaskMeta, ev: &OpEvent) -> u64 {
